@@ -581,6 +581,20 @@ func genShutdown() (string, error) {
 		}
 	}
 	sendsLast := len(callsTo(ga, "sc.Framer.startWrite")) == 1 && mentions(ga, "FrameGoAway") && mentions(ga, "sc.maxClientStreamID")
+	pd := findFunc(h2f, "MServerConn", "processData")
+	if pd == nil {
+		return "", fmt.Errorf("MServerConn.processData not found")
+	}
+	discards := false
+	for _, st := range pd.Body.List {
+		if i, ok := st.(*ast.IfStmt); ok && mentions(i.Cond, "sc.inGoAway") && mentions(i.Cond, "sc.maxClientStreamID") && endsInReturn(i.Body.List) {
+			if b, ok := i.Cond.(*ast.BinaryExpr); ok && b.Op == token.LAND {
+				discards = true
+			}
+		}
+	}
+	s += "/-- HTTP/2 server connection: DATA frames of streams above the GOAWAY's last stream id are discarded (false: they are a PROTOCOL_ERROR that closes the connection and fails the streams in flight) -/\n"
+	s += fmt.Sprintf("def h2DiscardsDataAboveLastStream : Bool := %v\n", discards)
 	s += "/-- HTTP/2 server connection: after its GOAWAY (which carries the last processed stream id) HEADERS of new streams are ignored -/\n"
 	s += fmt.Sprintf("def h2IgnoresNewStreamsAfterGoAway : Bool := %v\ndef h2GoAwayCarriesLastStream : Bool := %v\n", ignores, sendsLast)
 	xf, err := parse(xsrc)
